@@ -173,6 +173,29 @@ def gen_params_large(draw):
     return p
 
 
+@st.composite
+def gen_params_many_features(draw):
+    """few hosts, but many services / OS / processes (55-90 configuration flags per host)"""
+    p = draw(gen_params(max_hosts=8, max_services=3))
+    p["num_services"] = draw(st.integers(25, 45))
+    p["num_os"] = draw(st.integers(5, 12))
+    p["num_processes"] = draw(st.integers(20, 35))
+    for k in ("num_exploits", "num_privescs", "address_space_bounds"):
+        p.pop(k, None)
+    if isinstance(p.get("exploit_probs"), list):
+        p["exploit_probs"] = 0.5
+    if isinstance(p.get("privesc_probs"), list):
+        p["privesc_probs"] = 0.75
+    p["uniform"] = False
+    p.setdefault("alpha_H", 2.0)
+    p.setdefault("alpha_V", 2.0)
+    p["lambda_V"] = draw(st.sampled_from([5.0, 50.0, 2.0]))
+    if draw(st.booleans()):
+        p["num_exploits"] = draw(st.integers(20, 60))
+        p["num_privescs"] = draw(st.integers(10, 30))
+    return p
+
+
 def generated_case(params):
     import nasim
     scn = nasim.generate_scenario(**params)
